@@ -135,6 +135,10 @@ spec fn is_exec_failure(s: JobState) -> bool {
         || s == JobState::Output(JobStateOutput::FinishedFailure)
         || s == JobState::Ephemeral(JobStateEphemeral::FinishedFailure)
 }
+/// what justifies "upstream failed" in a consumer (C07): the job failed when executed, or is itself upstream-failed
+spec fn fail_cause(s: JobState) -> bool {
+    is_exec_failure(s) || upfailed(s)
+}
 spec fn is_aborted(s: JobState) -> bool {
     s == JobState::Always(JobStateAlways::FinishedAborted)
         || s == JobState::Output(JobStateOutput::FinishedAborted)
@@ -221,6 +225,7 @@ proof fn lemma_lc_consequences(s: JobState, t: JobState)
         pre_offer(s) && pre_offer(t) ==> pre_le(s, t),
         pre_unknown(t) ==> s == t,
         t == JobState::Ephemeral(JobStateEphemeral::NotReady(ValidationStatus::Invalidated)) ==> s == t || pre_unknown(s),
+        fail_cause(s) ==> t == s,
 {
     reveal(pre_le);
 }
@@ -739,7 +744,9 @@ impl<T: PPGEvaluatorStrategy> PPGEvaluator<T> {
     /// C18: records of jobs absent from the current graph are returned unchanged, unless superseded
     spec fn post_c18_absent(&self, r: Map<String, String>) -> bool {
         &&& forall|a: Seq<char>| #![trigger str_of(a)] valid_id(a) && !id_known(self.job_id_to_node_idx@, a) ==>
-                self.kept_unless_superseded(r, str_of(a), a) && self.kept_unless_superseded(r, str_of(key_inputs(a)), a)
+                self.kept_unless_superseded(r, str_of(a), a)
+        &&& forall|a: Seq<char>| #![trigger key_inputs(a)] valid_id(a) && !id_known(self.job_id_to_node_idx@, a) ==>
+                self.kept_unless_superseded(r, str_of(key_inputs(a)), a)
         &&& forall|a: Seq<char>, b: Seq<char>| #![trigger key_edge(a, b)] valid_id(a) && valid_id(b)
                 && (!id_known(self.job_id_to_node_idx@, a) || !id_known(self.job_id_to_node_idx@, b)) ==>
                 self.kept_unless_superseded(r, str_of(key_edge(a, b)), a)
@@ -886,10 +893,10 @@ impl<T: PPGEvaluatorStrategy> PPGEvaluator<T> {
         }
     }
 
-    proof fn lemma_post_c18(&self, out1: Map<String, String>, out2: Map<String, String>, r: Map<String, String>,
+    proof fn lemma_post_c18_nodep(&self, out1: Map<String, String>, out2: Map<String, String>, r: Map<String, String>,
         es: Seq<(usize, usize, &EdgeInfo)>)
         requires self.nh_loops_done(out1, out2, r, es),
-        ensures self.post_c18_nodep(r), self.post_c18_subset(r), self.post_c18_absent(r),
+        ensures self.post_c18_nodep(r),
     {
         broadcast use group_verif_axioms;
         broadcast use group_verif_str_axioms;
@@ -908,6 +915,17 @@ impl<T: PPGEvaluatorStrategy> PPGEvaluator<T> {
             self.lemma_untouched(out1, out2, r, es, self.ek(a, b));
             self.lemma_keep_edge_key(a, b);
         }
+    }
+
+    proof fn lemma_post_c18_subset(&self, out1: Map<String, String>, out2: Map<String, String>, r: Map<String, String>,
+        es: Seq<(usize, usize, &EdgeInfo)>)
+        requires self.nh_loops_done(out1, out2, r, es),
+        ensures self.post_c18_subset(r),
+    {
+        broadcast use group_verif_axioms;
+        broadcast use group_verif_str_axioms;
+        let n = self.jobs@.len() as int;
+        let m = self.job_id_to_node_idx@;
         // --- subset
         assert forall|k: String| #[trigger] r.contains_key(k) implies
             (self.history@.contains_key(k) && r[k] == self.history@[k]) || self.is_present_key(k) by {
@@ -926,8 +944,23 @@ impl<T: PPGEvaluatorStrategy> PPGEvaluator<T> {
                 self.lemma_untouched(out1, out2, r, es, k);
             }
         }
+    }
+
+    proof fn lemma_post_c18_absent_job(&self, out1: Map<String, String>, out2: Map<String, String>, r: Map<String, String>,
+        es: Seq<(usize, usize, &EdgeInfo)>)
+        requires self.nh_loops_done(out1, out2, r, es),
+        ensures
+            forall|a: Seq<char>| #![trigger str_of(a)] valid_id(a) && !id_known(self.job_id_to_node_idx@, a) ==>
+                self.kept_unless_superseded(r, str_of(a), a),
+            forall|a: Seq<char>| #![trigger key_inputs(a)] valid_id(a) && !id_known(self.job_id_to_node_idx@, a) ==>
+                self.kept_unless_superseded(r, str_of(key_inputs(a)), a),
+    {
+        broadcast use group_verif_axioms;
+        broadcast use group_verif_str_axioms;
+        let n = self.jobs@.len() as int;
+        let m = self.job_id_to_node_idx@;
         // --- absent
-        assert forall|a: Seq<char>| #![trigger str_of(a)] valid_id(a) && !id_known(m, a) implies
+        assert forall|a: Seq<char>| #![trigger valid_id(a)] valid_id(a) && !id_known(self.job_id_to_node_idx@, a) implies
             self.kept_unless_superseded(r, str_of(a), a) && self.kept_unless_superseded(r, str_of(key_inputs(a)), a) by {
             let k1 = str_of(a);
             let k2 = str_of(key_inputs(a));
@@ -950,7 +983,23 @@ impl<T: PPGEvaluatorStrategy> PPGEvaluator<T> {
             self.lemma_untouched(out1, out2, r, es, k1);
             self.lemma_untouched(out1, out2, r, es, k2);
             assert(str_split_once(key_inputs(a), "!!!"@) == Some((a, Seq::<char>::empty())));
+            assert(same_at(self.history@, out1, k1) || !self.history@.contains_key(k1) || superseded(self.jobs@, a));
+            assert(self.kept_unless_superseded(r, k1, a));
+            assert(self.kept_unless_superseded(r, k2, a));
         }
+    }
+
+    proof fn lemma_post_c18_absent_edge(&self, out1: Map<String, String>, out2: Map<String, String>, r: Map<String, String>,
+        es: Seq<(usize, usize, &EdgeInfo)>)
+        requires self.nh_loops_done(out1, out2, r, es),
+        ensures forall|a: Seq<char>, b: Seq<char>| #![trigger key_edge(a, b)] valid_id(a) && valid_id(b)
+                && (!id_known(self.job_id_to_node_idx@, a) || !id_known(self.job_id_to_node_idx@, b)) ==>
+                self.kept_unless_superseded(r, str_of(key_edge(a, b)), a),
+    {
+        broadcast use group_verif_axioms;
+        broadcast use group_verif_str_axioms;
+        let n = self.jobs@.len() as int;
+        let m = self.job_id_to_node_idx@;
         assert forall|a: Seq<char>, b: Seq<char>| #![trigger key_edge(a, b)] valid_id(a) && valid_id(b)
             && (!id_known(m, a) || !id_known(m, b)) implies
             self.kept_unless_superseded(r, str_of(key_edge(a, b)), a) by {
@@ -973,6 +1022,17 @@ impl<T: PPGEvaluatorStrategy> PPGEvaluator<T> {
             self.lemma_untouched(out1, out2, r, es, k);
             assert(str_split_once(key_edge(a, b), "!!!"@) == Some((a, b)));
         }
+    }
+
+    proof fn lemma_post_c18(&self, out1: Map<String, String>, out2: Map<String, String>, r: Map<String, String>,
+        es: Seq<(usize, usize, &EdgeInfo)>)
+        requires self.nh_loops_done(out1, out2, r, es),
+        ensures self.post_c18_nodep(r), self.post_c18_subset(r), self.post_c18_absent(r),
+    {
+        self.lemma_post_c18_nodep(out1, out2, r, es);
+        self.lemma_post_c18_subset(out1, out2, r, es);
+        self.lemma_post_c18_absent_job(out1, out2, r, es);
+        self.lemma_post_c18_absent_edge(out1, out2, r, es);
     }
 }
 
@@ -1235,6 +1295,67 @@ spec fn gates_ok(jobs: Seq<NodeInfo>, dag: &GraphType) -> bool {
     &&& forall|i: int| 0 <= i < jobs.len() && cleanup_reached(#[trigger] jobs[i].state) ==> all_down_done(dag, jobs, i as usize)
     &&& blank_skips_ok(jobs, dag)
     &&& flags_ok(jobs)
+    &&& uf_cause_ok(jobs, dag)
+}
+
+/// job n has a direct upstream that failed or is upstream-failed
+spec fn has_failed_up(dag: &GraphType, jobs: Seq<NodeInfo>, n: usize) -> bool {
+    exists|u: usize| #![trigger dag.is_nbr(n, Direction::Incoming, u)] dag.is_nbr(n, Direction::Incoming, u) && fail_cause(jobs[u as int].state)
+}
+
+/// G3a (C07): nobody is upstream-failed unless one of its direct upstreams failed or is upstream-failed
+spec fn uf_cause_ok(jobs: Seq<NodeInfo>, dag: &GraphType) -> bool {
+    forall|i: int| #![trigger upfailed(jobs[i].state)] 0 <= i < jobs.len() && upfailed(jobs[i].state) ==> has_failed_up(dag, jobs, i as usize)
+}
+
+proof fn lemma_uf_none(jobs: Seq<NodeInfo>, dag: &GraphType)
+    requires forall|i: int| #![trigger upfailed(jobs[i].state)] 0 <= i < jobs.len() ==> !upfailed(jobs[i].state),
+    ensures uf_cause_ok(jobs, dag),
+{
+}
+
+/// a cause stays a cause: failed and upstream-failed are final, and the dependency is still there
+proof fn lemma_failed_up_step(dag: &GraphType, dag2: &GraphType, a: Seq<NodeInfo>, b: Seq<NodeInfo>, n: usize)
+    requires
+        has_failed_up(dag, a, n), a.len() == b.len(), edges_in_range(dag, a.len()),
+        forall|i: int| 0 <= i < a.len() && fail_cause(a[i].state) ==> fail_cause(#[trigger] b[i].state),
+        forall|x: usize, y: usize| #![trigger dag.has_edge(x, y)] dag.has_edge(x, y) ==> dag2.has_edge(x, y),
+    ensures has_failed_up(dag2, b, n),
+{
+    reveal(has_failed_up);
+    let u = choose|u: usize| #![trigger dag.is_nbr(n, Direction::Incoming, u)] dag.is_nbr(n, Direction::Incoming, u) && fail_cause(a[u as int].state);
+    assert(dag.has_edge(u, n));
+    assert(dag2.has_edge(u, n));
+    assert(dag2.is_nbr(n, Direction::Incoming, u));
+    assert(fail_cause(b[u as int].state));
+}
+
+/// the invariant survives any change that creates no new upstream-failed job, keeps causes and dependencies
+proof fn lemma_uf_cause_kept(pre: Seq<NodeInfo>, post: Seq<NodeInfo>, dag: &GraphType, dag2: &GraphType)
+    requires
+        uf_cause_ok(pre, dag), pre.len() <= post.len(), edges_in_range(dag, pre.len()),
+        forall|i: int| #![trigger upfailed(post[i].state)] 0 <= i < post.len() && upfailed(post[i].state) ==> i < pre.len() && upfailed(pre[i].state),
+        forall|i: int| 0 <= i < pre.len() && fail_cause(pre[i].state) ==> fail_cause(#[trigger] post[i].state),
+        (forall|i: int| #![trigger upfailed(pre[i].state)] 0 <= i < pre.len() ==> !upfailed(pre[i].state))
+            || (forall|x: usize, y: usize| #![trigger dag.has_edge(x, y)] dag.has_edge(x, y) ==> dag2.has_edge(x, y)),
+    ensures uf_cause_ok(post, dag2),
+{
+    assert forall|i: int| #![trigger upfailed(post[i].state)] 0 <= i < post.len() && upfailed(post[i].state) implies has_failed_up(dag2, post, i as usize) by {
+        assert(upfailed(pre[i].state));
+        assert(has_failed_up(dag, pre, i as usize));
+        reveal(has_failed_up);
+        let u = choose|u: usize| #![trigger dag.is_nbr(i as usize, Direction::Incoming, u)] dag.is_nbr(i as usize, Direction::Incoming, u) && fail_cause(pre[u as int].state);
+        assert(dag.has_edge(u, i as usize));
+        assert(dag2.has_edge(u, i as usize));
+        assert(dag2.is_nbr(i as usize, Direction::Incoming, u));
+        assert(fail_cause(post[u as int].state));
+    }
+}
+
+proof fn lemma_uf_of(jobs: Seq<NodeInfo>, dag: &GraphType, i: int)
+    requires gates_ok(jobs, dag), 0 <= i < jobs.len(),
+    ensures upfailed(jobs[i].state) ==> has_failed_up(dag, jobs, i as usize),
+{
 }
 
 /// only aborted jobs are marked "aborted before they were started" (finding F7, repaired)
@@ -1324,8 +1445,20 @@ proof fn lemma_gates_after_write(pre: Seq<NodeInfo>, post: Seq<NodeInfo>, dag: &
         same_kind(pre[n].state, post[n].state),
         skipped_blank(post[n]) ==> skipped_blank(pre[n]) || all_eph_down(dag, pre, n as usize),
         ab_flag(post[n]) ==> is_aborted(post[n].state),
+        upfailed(post[n].state) ==> upfailed(pre[n].state) || has_failed_up(dag, pre, n as usize),
+        fail_cause(pre[n].state) ==> fail_cause(post[n].state),
     ensures gates_ok(post, dag),
 {
+    assert(uf_cause_ok(post, dag)) by {
+        assert forall|i: int| 0 <= i < pre.len() && fail_cause(pre[i].state) implies fail_cause(#[trigger] post[i].state) by {
+            if i != n { assert(post[i].state == pre[i].state); }
+        }
+        assert forall|i: int| #![trigger upfailed(post[i].state)] 0 <= i < post.len() && upfailed(post[i].state) implies has_failed_up(dag, post, i as usize) by {
+            if i != n { assert(post[i].state == pre[i].state); assert(upfailed(pre[i].state)); }
+            assert(has_failed_up(dag, pre, i as usize));
+            lemma_failed_up_step(dag, dag, pre, post, i as usize);
+        }
+    }
     assert(flags_ok(post)) by {
         assert forall|i: int| #![trigger ab_flag(post[i])] 0 <= i < post.len() && ab_flag(post[i]) implies is_aborted(post[i].state) by {
             if i != n { assert(post[i].state == pre[i].state && ab_flag(post[i]) == ab_flag(pre[i])); assert(ab_flag(pre[i])); }
@@ -1372,8 +1505,13 @@ proof fn lemma_gates_same_status(pre: Seq<NodeInfo>, post: Seq<NodeInfo>, dag: &
         forall|i: int| 0 <= i < pre.len() ==> same_kind(pre[i].state, (#[trigger] post[i]).state),
         forall|i: int| #![trigger skipped_blank(post[i])] 0 <= i < post.len() && skipped_blank(post[i]) ==> skipped_blank(pre[i]),
         forall|i: int| #![trigger ab_flag(post[i])] 0 <= i < post.len() && ab_flag(post[i]) ==> ab_flag(pre[i]) && post[i].state == pre[i].state,
+        forall|i: int| #![trigger upfailed(post[i].state)] 0 <= i < post.len() && upfailed(post[i].state) ==> upfailed(pre[i].state),
+        forall|i: int| 0 <= i < pre.len() && fail_cause(pre[i].state) ==> fail_cause(#[trigger] post[i].state),
+        (forall|i: int| #![trigger upfailed(pre[i].state)] 0 <= i < pre.len() ==> !upfailed(pre[i].state))
+            || (forall|x: usize, y: usize| #![trigger dag.has_edge(x, y)] dag.has_edge(x, y) ==> dag2.has_edge(x, y)),
     ensures gates_ok(post, dag2),
 {
+    lemma_uf_cause_kept(pre, post, dag, dag2);
     assert(flags_ok(post)) by {
         assert forall|i: int| #![trigger ab_flag(post[i])] 0 <= i < post.len() && ab_flag(post[i]) implies is_aborted(post[i].state) by {
             assert(ab_flag(pre[i]));
@@ -1788,6 +1926,7 @@ proof fn lemma_write_ok(pre: Seq<NodeInfo>, post: Seq<NodeInfo>, m: Map<String, 
         cleanup_reached(post[n].state) ==> cleanup_reached(pre[n].state) || all_down_done(dag, pre, n as usize),
         skipped_blank(post[n]) ==> skipped_blank(pre[n]) || all_eph_down(dag, pre, n as usize),
         ab_flag(post[n]) ==> is_aborted(post[n].state),
+        upfailed(post[n].state) ==> upfailed(pre[n].state) || has_failed_up(dag, pre, n as usize),
         pre[n].history_output is Some ==> post[n].history_output == pre[n].history_output,
         is_ready(pre[n].state) == is_ready(post[n].state) ==> r1 =~= r0,
         is_ready(pre[n].state) && !is_ready(post[n].state) ==> r1 =~= r0.remove(pre[n].job_id),
@@ -1822,6 +1961,12 @@ proof fn lemma_soft_ok(pre: Seq<NodeInfo>, post: Seq<NodeInfo>, m: Map<String, u
         assert(post[i].job_id == pre[i].job_id);
     }
     assert forall|i: int| 0 <= i < pre.len() && cleanup_reached(#[trigger] post[i].state) implies cleanup_reached(pre[i].state) by {
+        assert(post[i].job_id == pre[i].job_id);
+    }
+    assert forall|i: int| #![trigger upfailed(post[i].state)] 0 <= i < post.len() && upfailed(post[i].state) implies upfailed(pre[i].state) by {
+        assert(post[i].job_id == pre[i].job_id);
+    }
+    assert forall|i: int| 0 <= i < pre.len() && fail_cause(pre[i].state) implies fail_cause(#[trigger] post[i].state) by {
         assert(post[i].job_id == pre[i].job_id);
     }
     lemma_gates_same_status(pre, post, dag, dag);
@@ -1899,6 +2044,12 @@ proof fn lemma_cleanup_ok(pre: Seq<NodeInfo>, post: Seq<NodeInfo>, m: Map<String
         assert(post[i].job_id == pre[i].job_id);
     }
     assert forall|i: int| 0 <= i < pre.len() && cleanup_reached(#[trigger] post[i].state) implies cleanup_reached(pre[i].state) || all_down_done(dag, pre, i as usize) by {
+        assert(post[i].job_id == pre[i].job_id);
+    }
+    assert forall|i: int| #![trigger upfailed(post[i].state)] 0 <= i < post.len() && upfailed(post[i].state) implies upfailed(pre[i].state) by {
+        assert(post[i].job_id == pre[i].job_id);
+    }
+    assert forall|i: int| 0 <= i < pre.len() && fail_cause(pre[i].state) implies fail_cause(#[trigger] post[i].state) by {
         assert(post[i].job_id == pre[i].job_id);
     }
     lemma_gates_same_status(pre, post, dag, dag);
@@ -1980,6 +2131,7 @@ proof fn lemma_arm_write(oldj: Seq<NodeInfo>, pre: Seq<NodeInfo>, post: Seq<Node
         cleanup_reached(post[n].state) ==> cleanup_reached(pre[n].state) || all_down_done(dag, pre, n as usize),
         skipped_blank(post[n]) ==> skipped_blank(pre[n]) || all_eph_down(dag, pre, n as usize),
         ab_flag(post[n]) ==> is_aborted(post[n].state),
+        upfailed(post[n].state) ==> upfailed(pre[n].state) || has_failed_up(dag, pre, n as usize),
         pre[n].history_output is Some ==> post[n].history_output == pre[n].history_output,
         is_ready(pre[n].state) == is_ready(post[n].state) ==> r1 =~= r0,
         is_ready(pre[n].state) && !is_ready(post[n].state) ==> r1 =~= r0.remove(pre[n].job_id),
@@ -2332,6 +2484,14 @@ proof fn lemma_add_node_ok(pre: Seq<NodeInfo>, post: Seq<NodeInfo>, m0: Map<Stri
     broadcast use group_verif_axioms;
     let n = pre.len() as int;
     let nid = post[n].job_id;
+    assert(uf_cause_ok(post, dag1)) by {
+        assert forall|i: int| #![trigger upfailed(post[i].state)] 0 <= i < post.len() && upfailed(post[i].state) implies i < pre.len() && upfailed(pre[i].state) by {
+            if i < n { assert(post[i] == pre[i]); }
+        }
+        assert forall|i: int| 0 <= i < pre.len() && fail_cause(pre[i].state) implies fail_cause(#[trigger] post[i].state) by { assert(post[i] == pre[i]); }
+        assert forall|x: usize, y: usize| #![trigger dag0.has_edge(x, y)] dag0.has_edge(x, y) implies dag1.has_edge(x, y) by {}
+        lemma_uf_cause_kept(pre, post, dag0, dag1);
+    }
     assert(blank_skips_ok(post, dag1)) by {
         assert forall|i: int| 0 <= i < pre.len() implies same_kind(pre[i].state, (#[trigger] post[i]).state) by { assert(post[i] == pre[i]); }
         assert forall|i: int| #![trigger skipped_blank(post[i])] 0 <= i < post.len() && skipped_blank(post[i]) implies i < pre.len() && skipped_blank(pre[i]) by {
@@ -2475,6 +2635,7 @@ spec fn skip_gate(dag: &GraphType, jobs: Seq<NodeInfo>, n: usize) -> bool {
 spec fn sig_gate(dag: &GraphType, jobs: Seq<NodeInfo>, s: Signal) -> bool {
     (s.kind == SignalKind::JobReadyToRun ==> all_up_done(dag, jobs, s.node_idx))
     && (s.kind == SignalKind::JobFinishedSkip ==> skip_gate(dag, jobs, s.node_idx))
+    && (s.kind == SignalKind::JobUpstreamFailure ==> has_failed_up(dag, jobs, s.node_idx))
 }
 
 spec fn sigs_gate_ok(s: Seq<Signal>, from: int, dag: &GraphType, jobs: Seq<NodeInfo>) -> bool {
@@ -2526,6 +2687,13 @@ proof fn lemma_sigs_gate_step(s: Seq<Signal>, from: int, dag: &GraphType, dag2: 
         }
         if s[k].kind == SignalKind::JobFinishedSkip {
             lemma_skip_gate_step(dag, dag2, a, b, n);
+        }
+        if s[k].kind == SignalKind::JobUpstreamFailure {
+            assert forall|i: int| 0 <= i < a.len() && fail_cause(a[i].state) implies fail_cause(#[trigger] b[i].state) by {
+                assert(lc_le(a[i].state, b[i].state));
+                lemma_lc_consequences(a[i].state, b[i].state);
+            }
+            lemma_failed_up_step(dag, dag2, a, b, n);
         }
     }
 }
